@@ -1,6 +1,7 @@
 package main
 
 import (
+	"fmt"
 	"go/types"
 	"sort"
 	"strings"
@@ -58,6 +59,10 @@ func (vc *VC) runInit(pkg *ssa.Package) {
 			st.objs[o] = SV{T: vc.S.zero(o.typ), Typ: o.typ}
 		}
 	}
+	// storage allocated by initialisers gets negative region ids (distinct from every region of the function under verification)
+	vc.initRegions -= 1000
+	st.ghost["nextR"] = fmt.Sprintf("(- %d)", -vc.initRegions)
+	var pending []pendingRegion
 	fr := vc.newFrame(initFn, nil)
 	fr.run("true", st)
 	if len(fr.rets) > 0 {
@@ -69,13 +74,21 @@ func (vc *VC) runInit(pkg *ssa.Package) {
 		for _, gl := range globs {
 			o := objs[gl]
 			if v, ok := fin.objs[o]; ok && v.T != "" {
-				if _, isSlice := o.typ.Underlying().(*types.Slice); isSlice {
-					continue // slice-typed globals need their region contents: left symbolic
+				if sl, isSlice := o.typ.Underlying().(*types.Slice); isSlice {
+					// the region the initialiser filled keeps its contents in the entry memory
+					mn := vc.memName(sl.Elem())
+					if fm, ok := fin.mem[mn]; ok {
+						pending = append(pending, pendingRegion{elem: sl.Elem(), slice: v.T, mem: fm})
+					}
 				}
 				vc.initVals[gl] = v.T
 				vc.entry.objs[o] = SV{T: v.T, Typ: o.typ}
 			}
 		}
+	}
+	for _, pr := range pending {
+		em := vc.memTerm(vc.entry, pr.elem)
+		vc.emit("(assert (= (select %s (s.rgn %s)) (select %s (s.rgn %s))))", em, pr.slice, pr.mem, pr.slice)
 	}
 	captured := vc.lines
 	vc.lines = append(captured, savedLines...)
@@ -83,4 +96,10 @@ func (vc *VC) runInit(pkg *ssa.Package) {
 		o.Prefix += len(captured)
 	}
 	vc.assum["package-level variables hold the values their initialisers give them (no later writes: C18 frame sweep)"] = true
+}
+
+type pendingRegion struct {
+	elem  types.Type
+	slice string
+	mem   string
 }
